@@ -258,7 +258,10 @@ func driveICS20(t *testing.T, in, out string, seed int64) {
 					}
 				}()
 				w.fixHeaders()
-				err := path.EndpointB.RecvPacket(packet)
+				// MsgRecvPacket with the real proof, delivered through the application (a failing or panicking delivery is
+				// reported, not fatal)
+				proof, proofHeight := path.EndpointA.QueryProof(host.PacketCommitmentKey(packet.GetSourcePort(), packet.GetSourceChannel(), packet.GetSequence()))
+				_, err := w.deliverB(channeltypes.NewMsgRecvPacket(packet, proof, proofHeight, w.userB().String()))
 				line["res"] = "ok"
 				if err != nil {
 					line["res"], line["msg"] = "err", clip(err.Error())
